@@ -176,6 +176,9 @@ type BlockRow struct {
 	From     uint64 `json:"from"`
 	To       uint64 `json:"to"`
 	Hash     string `json:"hash"`
+	// Redigest: the documented digest (the expression of create_block) evaluated after quiescence by
+	// the modelled PostgreSQL over the previous block's hash and the committed logs in (from, to]
+	Redigest string `json:"redigest"`
 }
 
 // ---------------------------------------------------------------------------
@@ -677,6 +680,24 @@ func (e *env) ledgerState(real string) (LedgerState, error) {
 		st.Blocks = append(st.Blocks, BlockRow{ID: u64(r["id"]), Previous: u64(r["previous"]), From: u64(r["from_id"]), To: u64(r["to_id"]), Hash: str(r["hash"])})
 	}
 	sort.Slice(st.Blocks, func(i, j int) bool { return st.Blocks[i].ID < st.Blocks[j].ID })
+	for i := range st.Blocks {
+		st.Blocks[i].Hash = hexOf(st.Blocks[i].Hash)
+	}
+	for i := range st.Blocks {
+		b := &st.Blocks[i]
+		prev := "NULL::bytea"
+		if i > 0 {
+			prev = `'\x` + st.Blocks[i-1].Hash + `'::bytea`
+		}
+		var got []byte
+		q := fmt.Sprintf(`select public.digest(coalesce(%s, '') || string_agg(type || encode(memento, 'escape') || (to_json(date::timestamp)#>>'{}') || coalesce(idempotency_key, '') || id, ''), 'sha256'::text) from (select * from "%s".logs where id > %d and id <= %d and ledger = '%s' order by id) logs`,
+			prev, bucketOf(dump), b.From, b.To, real)
+		if err := e.srv.SQLDB().QueryRowContext(context.Background(), q).Scan(&got); err != nil {
+			b.Redigest = "error: " + errMsg(err)
+		} else {
+			b.Redigest = fmt.Sprintf("%x", got)
+		}
+	}
 	// logs: through the REAL store reader, so that Log.ComputeHash (real Go) can recompute the chain
 	ctrl, err := e.sys.GetLedgerController(context.Background(), real)
 	if err != nil {
@@ -715,6 +736,21 @@ func (e *env) ledgerState(real string) (LedgerState, error) {
 		st.SysState = l.State
 	}
 	return st, nil
+}
+
+// hexOf extracts the hex text of a bytea value of the dump ({"hex": …})
+func hexOf(s string) string {
+	s = strings.TrimPrefix(s, "map[hex:")
+	return strings.TrimSuffix(s, "]")
+}
+
+func bucketOf(dump map[string][]map[string]any) string {
+	for k := range dump {
+		if i := strings.Index(k, "."); i > 0 && !strings.HasPrefix(k, "_system.") {
+			return k[:i]
+		}
+	}
+	return "_default"
 }
 
 func jsonText(v any) string {
